@@ -64,6 +64,16 @@ fn rec(
             label.push_str(" + ");
             label.push_str(&devs[i].label);
         }
+        // never valid Rust: two variants with one identifier (a deviation may have renamed one onto another)
+        {
+            let mut ids: Vec<&str> = s.variants.iter().map(|v| crate::spec::unraw(&v.ident)).collect();
+            ids.sort();
+            let n = ids.len();
+            ids.dedup();
+            if ids.len() != n {
+                return;
+            }
+        }
         if !domain(&s) {
             *excluded += 1;
             return;
